@@ -4,7 +4,7 @@ Pairs (old, new) with new = edit(old) for every documented edit class at every p
 meaning-preserving rewrites and unrelated pairs, executed on the real LoadPackage + validatePackage (which runs
 dsl.ValidateEvolution) in-process, twice per pair; compared with a reference classifier written from docs/cpp/evolution.md."""
 import copy, itertools, json, os, shutil
-from multiprocessing import Pool
+from build import Pool
 
 import am, build, shapes
 from am import P, N, TP, Opt, Union, Vec, Arr, Map, Stream, Record, Enum, Alias, Protocol, Package
@@ -40,6 +40,11 @@ def base_model(variant=0):
     protos = [Protocol("Proto", steps), Protocol("Proto2", [("a", N("Header")), ("b", Stream(P("int32")))])]
     if variant == 1:
         protos = [Protocol("Proto", steps[:6])]
+    if variant == 2:
+        # a generic used with several type arguments whose definitions are reachable only through it
+        defs += [Record("Box", [("v", TP("T"))], tparams=("T",)), Record("Leaf", [("q", P("int32")), ("o", Opt(P("string")))]),
+                 Enum("Shade", [("dark", 0), ("light", 1)]), Record("Leaf2", [("w", P("float64"))])]
+        protos[0].steps += [("bx1", N("Box", N("Leaf"))), ("bx2", N("Box", N("Shade"))), ("bx3", Stream(N("Box", N("Leaf2"))))]
     return Package("Evo", defs=defs, protocols=protos, imports=[lib])
 
 
@@ -198,7 +203,7 @@ def edits(old):
     p = clone(); find(p, "Item").type = Union(N("Sample"), N("ImgF"), N("Header"), P("int32"))
     yield ("add-two-union-types/Item", "partial", p)
     # ---- enums / flags
-    for en in ["Kind", "Mode"]:
+    for en in ["Kind", "Mode"] + [d.name for d in old.defs if d.kind == "enum" and d.name not in ("Kind", "Mode")]:
         e0 = find(old, en)
         p = clone(); find(p, en).values.append(("added", 64))
         yield ("enum-add-value/%s" % en, "incompatible", p)
@@ -265,7 +270,8 @@ _W = {}
 
 
 def run_pair(job):
-    label, cls, old_files, new_files = job
+    label, cls, old_files, new_files = job[:4]
+    extra = job[4] if len(job) > 4 else {}
     if _W.get("pid") != os.getpid():
         _W["pid"] = os.getpid()
         _W["dir"] = os.path.join(build.scratch(), "c06-w%d" % os.getpid())
@@ -274,6 +280,8 @@ def run_pair(job):
     shutil.rmtree(d, ignore_errors=True)
     build.write_tree(os.path.join(d, "old"), old_files)
     build.write_tree(os.path.join(d, "new"), new_files)
+    for dn, fs in extra.items():
+        build.write_tree(os.path.join(d, dn), fs)
     root = [k for k in new_files if k.endswith("_package.yml") and "namespace: Evo" in new_files[k] or k.startswith("evo/")]
     res1 = h.call({"dir": os.path.join(d, "new", "evo")}, timeout=60)
     res2 = h.call({"dir": os.path.join(d, "new", "evo")}, timeout=60)
@@ -360,6 +368,55 @@ def main(tier):
                     if label.startswith("remove-field") and cls == "partial":
                         pass
                     jobs.append(("v%d/reverse/%s" % (variant, label), rcls, files_for(new), files_for(copy.deepcopy(old), new)))
+    # composed edits on the variant with several instantiations of one generic: a benign edit followed by a breaking one must still be
+    # rejected, a benign one followed by a partially compatible one must still warn (one change never hides another)
+    base2 = base_model(2)
+    base2f = files_for(base2)
+    UNREACHED["c2"] = unreached_definitions(base2)
+    benign, seen_kinds = [], set()
+    for l1, c1, p1 in edits(base2):
+        k1 = l1.split("/")[0] + "/" + l1.split("/")[-1].split("@")[0].split(".")[0]
+        if isinstance(p1, tuple) or c1 not in ("compatible", "partial") or k1 in seen_kinds:
+            continue
+        if tier == "quick" and l1.split("/")[-1].split("@")[0].split(".")[0] not in ("Leaf", "Header", "Leaf2"):
+            continue
+        seen_kinds.add(k1)
+        benign.append((l1, c1, p1))
+    for l1, c1, p1 in benign:
+        seen2 = set()
+        for l2, c2, p12 in edits(p1):
+            k2 = l2.split("/")[0] + "/" + l2.split("/")[-1].split("@")[0].split(".")[0]
+            if isinstance(p12, tuple) or c2 not in ("incompatible", "partial") or k2 in seen2:
+                continue
+            if c2 == "partial" and c1 == "partial":
+                continue
+            if "added" in l2 or "NewAlias" in l2 or "Hdr2" in l2:
+                continue        # the second edit would change what the first one introduced: relative to the base that is one edit, not two
+            if tier == "quick" and not (l2.split("/")[0].startswith("enum-") or l2.split("/")[0] in ("change-primitive", "scalar-to-vector", "remove-step")):
+                continue
+            seen2.add(k2)
+            tag = "%s+%s" % (l1.replace("/", ":"), l2.replace("/", ":"))
+            jobs.append(("c2/first/" + tag, "any", base2f, files_for(p1, base2)))
+            jobs.append(("c2/second/" + tag, "any", files_for(p1), files_for(p12, p1)))
+            jobs.append(("c2/compose/" + tag, "any", base2f, files_for(p12, base2)))
+    # several listed versions: the verdict against one version does not depend on which other versions are listed, nor on their order
+    ident = files_for(copy.deepcopy(base2))
+    picked, seenk = [], set()
+    for l1, c1, p1 in edits(base2):
+        if isinstance(p1, tuple) or c1 not in ("incompatible", "partial") or l1.split("/")[0] in seenk:
+            continue
+        seenk.add(l1.split("/")[0])
+        picked.append((l1, c1, p1))
+    for l1, c1, p1 in (picked[:12] if tier == "quick" else picked):
+        jobs.append(("c2/multi-version/alone/" + l1, "any", base2f, files_for(p1, base2)))
+        cur = am.package_files(p1, targets=())
+        same = am.package_files(copy.deepcopy(p1), targets=())
+        for order in ("same-first", "same-last", "same-twice-around"):
+            fs = dict(cur)
+            vs = {"same-first": [("vs", "../../same/evo"), ("v0", "../../old/evo")], "same-last": [("v0", "../../old/evo"), ("vs", "../../same/evo")],
+                  "same-twice-around": [("vs", "../../same/evo"), ("v0", "../../old/evo"), ("vt", "../../same/evo")]}[order]
+            fs["evo/_package.yml"] += "versions:\n" + "".join("  %s: %s\n" % v for v in vs)
+            jobs.append(("c2/multi-version/%s/%s" % (order, l1), "any", base2f, fs, {"same": same}))
     # reflexive pairs on packed shape packages (all constructors)
     sh = [s for s in shapes.shapes(1, tier) if not shapes.has_vector_of_bool(s)]
     for pkg, _ in shapes.pack(sh[:: (8 if tier == "quick" else 1)], "Evo", per_package=60, with_records=True):
@@ -394,13 +451,33 @@ def main(tier):
         # a definition no protocol reaches has no encoding to keep compatible: yardl reports nothing for it, and the documented
         # classes are about what streams contain, so "silent" is accepted for edits of such definitions
         edited = label.split("/")[-1].split("@")[0].split(".")[0].split(":")[0].split("-")[0].split("#")[0]
-        if label.startswith("v") and edited in UNREACHED.get(label.split("/")[0], ()) and verdict == "silent":
+        if (label.startswith("v") or label.startswith("c2/")) and edited in UNREACHED.get(label.split("/")[0], ()) and verdict == "silent":
             want = None
         if want and verdict != want:
             chk.fail("%s/expected-%s-got-%s/%s" % (cls, want, verdict, fam), "%s: documented class %s => %s, yardl says %s: %s" % (label, cls, want, verdict, detail),
                      {"label": label, "class": cls, "result": r1})
         if chk.evaluations % 150 == 1:
             chk.sample({"pair": label, "documented_class": cls, "verdict": verdict, "detail": detail[:160]})
+    # differential oracles on the composed / multi-version jobs (independent of the documented classes)
+    verdicts = {label: v for label, v in states}
+    rank = {"silent": 0, "warning": 1, "error": 2}
+    for label, v in sorted(verdicts.items()):
+        if label.startswith("c2/compose/"):
+            tag = label[len("c2/compose/"):]
+            v1, v2 = verdicts.get("c2/first/" + tag), verdicts.get("c2/second/" + tag)
+            if v1 is None or v2 is None:
+                continue
+            need = max(rank[v1], rank[v2])
+            if rank[v] < need:
+                k2 = tag.split("+")[1].split(":")[0]
+                chk.fail("compose/change-hidden-by-another/%s" % k2, "%s: the first edit alone gives '%s', the second alone '%s', both together only '%s': one change hides the other" % (
+                    label, v1, v2, v), {"label": label, "first": v1, "second": v2, "together": v})
+        elif label.startswith("c2/multi-version/") and "/alone/" not in label:
+            order, l1 = label[len("c2/multi-version/"):].split("/", 1)
+            va = verdicts.get("c2/multi-version/alone/" + l1)
+            if va is not None and va != v:
+                chk.fail("multi-version/verdict-depends-on-other-versions/%s" % order, "%s: against this previous version alone yardl says '%s', with an identical copy of the current model also listed (%s) it says '%s'" % (
+                    l1, va, order, v), {"label": label, "alone": va, "with_other_versions": v})
     chk.extra.update({"states": len(states), "transitions": len(results) * 2, "traces_validated_against_impl": len(results) * 2, "pairs": len(results)})
     chk.assumptions += ["the reference classes are the example lists of docs/cpp/evolution.md; edits the docs do not classify (e.g. reordering enum values) are executed for totality/determinism only",
                         "in-process LoadPackage + validatePackage stands for `yardl validate` on a package with `versions:`"]
